@@ -110,6 +110,18 @@ def txn(full):
               argv('MULTI', 'x'), argv('EXEC', 'x')]
     return A
 
+def pubsub(full):
+    CH = ['news', 'mews'] + (['n'] if full else [])
+    PT = ['n*', '[mn]ews'] + (['*', '?ews'] if full else [])
+    A = []
+    for c in CH:
+        A += [argv('SUBSCRIBE', c), argv('UNSUBSCRIBE', c), argv('PUBLISH', c, 'm')]
+    for p in PT:
+        A += [argv('PSUBSCRIBE', p), argv('PUNSUBSCRIBE', p)]
+    A += [argv('UNSUBSCRIBE'), argv('PUNSUBSCRIBE'), argv('SUBSCRIBE', 'news', 'mews'), argv('SUBSCRIBE'), argv('PUBLISH', 'news'),
+          argv('PUBLISH', 'news', '')]
+    return A
+
 def auth():
     return [argv('AUTH', 'pw'), argv('AUTH', 'p'), argv('AUTH', 'PW'), argv('AUTH'), argv('AUTH', 'pw', 'x'), argv('PING'),
             argv('SET', 'k', 'a'), argv('GET', 'k'), argv('MULTI'), argv('EXEC'), argv('FLUSHALL'), argv('SELECT', '1'),
@@ -127,6 +139,8 @@ def main():
     out.append(cat('Cat_Txn', txn(True)))
     out.append(cat('Cat_Txn_quick', txn(False)))
     out.append(cat('Cat_Auth', auth()))
+    out.append(cat('Cat_PubSub', pubsub(True)))
+    out.append(cat('Cat_PubSub_quick', pubsub(False)))
     out.append('Pw == ' + lit('pw'))
     out.append('=============================================================================')
     p = os.path.join(os.path.dirname(os.path.abspath(__file__)), '..', 'spec', 'mc', 'Cats.tla')
